@@ -4,6 +4,7 @@ import (
 	"os"
 	"sort"
 	"strconv"
+	"strings"
 	"testing"
 
 	"pgregory.net/rapid"
@@ -55,5 +56,78 @@ func TestSelf(t *testing.T) {
 	sort.Strings(keys)
 	for _, k := range keys {
 		t.Logf("%-32s %d", k, counts[k])
+	}
+}
+
+// TestToolSubjectsAndSquash: the options added for tool-written subjects and squash commits. Every drawn
+// history is built with real git and compared with simulation and emulator; subjects keep the invariants
+// the checks state (one line, no blank at either end, Type = the conventional prefix if there is one).
+func TestToolSubjectsAndSquash(t *testing.T) {
+	base, err := os.MkdirTemp("", "ggen-tool-")
+	if err != nil {
+		t.Fatal(err)
+	}
+	defer os.RemoveAll(base)
+	o := AllFeatures
+	o.ToolSubjects, o.SquashMerges = true, true
+	o.ExecFiles, o.ModeChanges, o.AffixNames, o.PunctAuthors = true, true, true, true
+	n := 100
+	if v, err := strconv.Atoi(os.Getenv("GGEN_N")); err == nil {
+		n = v
+	}
+	g := rapid.Custom(func(t *rapid.T) History { return Gen(t, o) })
+	counts := map[string]int{}
+	for i := 1; i <= n; i++ {
+		h := g.Example(i)
+		for _, c := range h.Commits {
+			s := c.Subject
+			if s == "" || s != strings.TrimSpace(s) || strings.ContainsAny(s, "\t\n\r") {
+				t.Fatalf("seed %d: subject %q", i, s)
+			}
+			want := ""
+			if reConv.MatchString(s) {
+				want = reConvType.FindString(s)
+			}
+			if c.Type != want {
+				t.Fatalf("seed %d: subject %q has type %q, want %q", i, s, c.Type, want)
+			}
+			if c.Squash && (c.Merge || c.Lane != 0 || len(c.Ops) > 0) {
+				t.Fatalf("seed %d: squash commit %+v", i, c)
+			}
+		}
+		sim, err := Simulate(h)
+		if err != nil {
+			t.Fatalf("seed %d: %v", i, err)
+		}
+		for _, c := range sim.Commits {
+			if c.Commit.Squash && len(c.Parents) != 1 {
+				t.Fatalf("seed %d: squash commit with parents %v", i, c.Parents)
+			}
+		}
+		repo, err := Build(base, sim)
+		if err != nil {
+			t.Fatalf("seed %d: %v", i, err)
+		}
+		err = Validate(sim, repo)
+		repo.Remove()
+		if err != nil {
+			t.Fatalf("seed %d: %v", i, err)
+		}
+		for _, f := range Features(sim) {
+			counts[f]++
+		}
+	}
+	for _, k := range []string{"squash_commit", "subject_merge_like_on_ordinary_commit_with_changes", "subject_generated", "merge_commit_other_merge_subject"} {
+		if counts[k] == 0 {
+			t.Errorf("feature %s never drawn in %d histories", k, n)
+		}
+	}
+	var keys []string
+	for k := range counts {
+		keys = append(keys, k)
+	}
+	sort.Strings(keys)
+	for _, k := range keys {
+		t.Logf("%-52s %d", k, counts[k])
 	}
 }
